@@ -81,6 +81,9 @@ def check_case(ctx, case):
     with tempfile.TemporaryDirectory() as d:
         path = os.path.join(d, "catalog." + {"csep-csv": "csv", "zmap": "dat", "jma-csv": "csv", "ingv_horus": "txt", "ndk": "ndk"}[case["fmt"]])
         write(case, path)
+        if case.get("pathlib"):
+            import pathlib
+            path = pathlib.Path(path)     # file names are accepted as str and as pathlib.Path
         o = call(csep.load_catalog, path, type=case["fmt"], **({"format": case["format"]} if case.get("format") else {}))
         if case.get("format"):
             ctx.count("loaded_with_format_" + case["format"])
@@ -193,6 +196,8 @@ def cases(draw, max_n=50):
         c["nl"] = draw(st.booleans())
     if draw(st.integers(0, 15)) == 0:
         c["repeat"] = draw(st.sampled_from([40, max(40, -(-2500 // n))]))      # second choice: at least 2500 records
+    if draw(st.integers(0, 3)) == 0:
+        c["pathlib"] = True
     if draw(st.integers(0, 3)) == 0:
         c["format"] = "csep"       # documented alternative of format='native': same records in the CSEP catalog class
     return draw_tz(draw, c)
